@@ -589,9 +589,12 @@ def run_atheris(ctx, mon, corpus, runs):
         with open(drv, "w") as f:
             f.write(DRIVER % {"home": os.environ.get("VERIF_HOME") or os.path.dirname(os.path.dirname(os.path.dirname(os.path.abspath(__file__))))})
         cmd = [sys.executable, drv, "-runs=%d" % runs, "-max_len=%d" % MAXLEN, "-seed=%d" % (1 + ctx.seed * 1000 + ctx.shard),
-               "-artifact_prefix=" + adir + os.sep, "-print_final_stats=1", "-verbosity=1", cdir]
+               "-artifact_prefix=" + adir + os.sep, "-print_final_stats=1", "-verbosity=1",
+               # libFuzzer's own wall-clock / memory verdicts are switched off: termination is decided by the line
+               # budget inside the driver, never by time (a loaded machine once produced a 'slow-unit' artifact)
+               "-timeout=1000000", "-report_slow_units=1000000", "-rss_limit_mb=0", "-malloc_limit_mb=0", cdir]
         try:
-            p = subprocess.run(cmd, capture_output=True, timeout=600 if ctx.quick else 2400, cwd=tmp)
+            p = subprocess.run(cmd, capture_output=True, timeout=600 if ctx.quick else 3000, cwd=tmp)
         except subprocess.TimeoutExpired:
             ctx.inconclusive("atheris subprocess watchdog (shard %d)" % ctx.shard)
             return
@@ -613,8 +616,15 @@ def run_atheris(ctx, mon, corpus, runs):
         ctx.maxi("atheris_edge_coverage", int(stats.get("cov", "0") or 0))
         ctx.maxi("atheris_features", int(stats.get("ft", "0") or 0))
         ctx.seen("atheris_corpus", stats.get("corp", "?"))
-        crashes = sorted(os.listdir(adir))
-        if p.returncode != 0 or crashes:
+        arts = sorted(os.listdir(adir))
+        crashes = [a for a in arts if a.startswith("crash-")]
+        for a in arts:
+            if a not in crashes:  # slow-unit-/timeout-/oom-/leak-: resource reports, not exception-type verdicts
+                ctx.count("atheris_resource_artifacts_ignored")
+                ctx.seen("atheris_other_artifacts", a.split("-")[0])
+        if p.returncode != 0 and not crashes:
+            ctx.inconclusive("atheris exited %d without a crash artifact (shard %d): %s" % (p.returncode, ctx.shard, err[-300:]))
+        elif crashes:
             ctx.count("atheris_crashes", max(1, len(crashes)))
             before = sum(v["count"] for v in ctx.violations.values())
             for name in crashes[:5]:
@@ -652,7 +662,7 @@ def run(ctx):
                         ctx.count("inputs_with_pointer_cycle")
                     mon.check(c, origin="corpus")
             run_chains(ctx, mon, dns)
-            for i in ctx.cases(40000, 2000000):
+            for i in ctx.cases(40000, 1500000):
                 if mon.nonterm >= 3:
                     ctx.count("stopped_after_nontermination")
                     break
@@ -678,7 +688,7 @@ def run(ctx):
         ctx.count("atheris_or_noted")  # skipped: part A already found a non-terminating input
         ctx.count("atheris_skipped_after_nontermination")
     else:
-        run_atheris(ctx, mon_for_replay(ctx, dns, mon), corpus, ctx.size(100000, 5000000) // ctx.nshards)
+        run_atheris(ctx, mon_for_replay(ctx, dns, mon), corpus, ctx.size(100000, 4000000) // ctx.nshards)
 
 
 def mon_for_replay(ctx, dns, mon):
